@@ -74,7 +74,23 @@ class Node:
     def __add__(self, other):
         self.neighbors[other] = None
         other.neighbors[self] = None
-        self._update()
+
+        # A single pass of _update() refreshes each node only once, with the routes
+        # its neighbors had at that moment. When the new link closes a cycle, this can
+        # leave routes longer than necessary: iterate until the routes are stable.
+        previous = None
+        while True:
+            updated = set()
+            self._update(updated)
+            current = {
+                (node, name): route.steps
+                for node in updated
+                for name, route in node.routes.items()
+            }
+            if current == previous:
+                break
+            previous = current
+
         return other
 
     @property
